@@ -33,6 +33,8 @@ import (
 	"gosym/interp"
 )
 
+var c20SharedCells int
+
 type c20PubResult struct {
 	queries, sat, unsat int
 	solverT             time.Duration
@@ -52,6 +54,8 @@ func c20Traces(l *loaded) (map[string][]interp.SyncEvent, string) {
 	}
 	const sym = "verif_c20_fresh_symbol"
 	out := map[string][]interp.SyncEvent{}
+	// every cell reachable from the repo's package-level variables is shared state
+	c20SharedCells = eng.MarkShared(modPath)
 	eng.TraceEvents = true
 	eng.Events = nil
 	h, err := eng.Call(get, sym)
@@ -69,6 +73,11 @@ func c20Traces(l *loaded) (map[string][]interp.SyncEvent, string) {
 		return nil, "SymHash2Str: " + err.Error()
 	}
 	out["hash_to_str"] = eng.Events
+	eng.Events = nil
+	if _, err := eng.Call(get, sym+"_2"); err != nil {
+		return nil, "GetSymHash: " + err.Error()
+	}
+	out["intern_other_new"] = eng.Events
 	eng.TraceEvents = false
 	return out, ""
 }
@@ -242,6 +251,7 @@ func runC20Pub(l *loaded, tier string) c20PubResult {
 			return r
 		}
 	}
+	c20TraceRaces(tr, tier, &r)
 	return r
 }
 
@@ -306,4 +316,142 @@ func TestVerifPublication(t *testing.T) {
 	err := cmd.Run()
 	txt := out.String()
 	return err != nil && strings.Contains(txt, "PUBLICATION-BROKEN"), txt
+}
+
+
+// ---------------------------------------------------------------- races on the traced paths
+//
+// The static family sees package-level maps only.  The traces also contain every load and
+// store of a memory cell reachable from a package-level variable (a shared hasher, buffer,
+// counter ...), so the same adjacency query is asked for every pair of conflicting events of
+// two traces: same map (any key) or same cell, at least one write.  Events are deduplicated
+// by (object, cell, kind, set of locks held): the verdict depends on nothing else.
+
+func c20HeldSig(evs []interp.SyncEvent) []string {
+	sig := make([]string, len(evs))
+	var held []string
+	for i, e := range evs {
+		switch e.Kind {
+		case "lock", "rlock":
+			held = append(held, e.Kind+":"+e.Obj)
+		case "unlock", "runlock":
+			if len(held) > 0 {
+				held = held[:len(held)-1]
+			}
+		}
+		sig[i] = strings.Join(held, ",")
+	}
+	return sig
+}
+
+func c20TraceRaces(tr map[string][]interp.SyncEvent, tier string, r *c20PubResult) {
+	names := []string{"intern_new", "intern_other_new", "intern_known", "hash_to_str"}
+	conv := func(evs []interp.SyncEvent) []c20Event {
+		out := make([]c20Event, len(evs))
+		for i, e := range evs {
+			out[i] = c20Event{Kind: e.Kind, Obj: e.Obj, Where: e.Where}
+		}
+		return out
+	}
+	isAcc := func(e interp.SyncEvent) bool { return e.Kind == "read" || e.Kind == "write" }
+	reported := map[string]bool{}
+	for i, an := range names {
+		for _, bn := range names[i:] {
+			a, b := tr[an], tr[bn]
+			ca, cb := conv(a), conv(b)
+			sa, sb := c20HeldSig(a), c20HeldSig(b)
+			asked := map[string]bool{}
+			for x, ea := range a {
+				if !isAcc(ea) {
+					continue
+				}
+				for y, eb := range b {
+					if !isAcc(eb) || ea.Obj != eb.Obj || (ea.Kind == "read" && eb.Kind == "read") {
+						continue
+					}
+					if strings.HasPrefix(ea.Obj, "cell:") && ea.Key != eb.Key {
+						continue
+					}
+					key := ea.Obj + "|" + ea.Kind + "|" + sa[x] + "||" + eb.Kind + "|" + sb[y]
+					if strings.HasPrefix(ea.Obj, "cell:") {
+						key += "|" + ea.Key
+					}
+					if asked[key] {
+						continue
+					}
+					asked[key] = true
+					t1 := time.Now()
+					res, model := c20Solve(c20Query(ca, cb, x, y))
+					r.solverT += time.Since(t1)
+					r.queries++
+					switch res {
+					case "unsat":
+						r.unsat++
+					case "sat":
+						r.sat++
+						rk := ea.Obj + "|" + ea.Where + "|" + eb.Where
+						if reported[rk] {
+							continue
+						}
+						reported[rk] = true
+						p := c20WriteReplay(tier, len(r.violations), map[string]interface{}{"kind": "trace-race", "thread_A": an, "thread_B": bn, "access_A": ea, "access_B": eb, "schedule": model})
+						ok, out := c20TraceRaceReplay()
+						if !ok {
+							r.broken = fmt.Sprintf("ENGINE-MISMATCH: race on %s (%s %s / %s %s) does not reproduce under go test -race: %s", ea.Obj, ea.Kind, ea.Where, eb.Kind, eb.Where, tail(out, 400))
+							return
+						}
+						r.validated++
+						r.violations = append(r.violations, fmt.Sprintf("VIOLATION property=C20 replay=%s (unsynchronised access to shared state %s: %s at %s in %s and %s at %s in %s can be adjacent; schedule %s)", p, ea.Obj, ea.Kind, ea.Where, an, eb.Kind, eb.Where, bn, model))
+					default:
+						r.broken = "solver answered " + res
+						return
+					}
+				}
+			}
+		}
+	}
+}
+
+// c20TraceRaceReplay: two goroutines intern distinct fresh names and convert hashes back, under the race detector.
+func c20TraceRaceReplay() (bool, string) {
+	src := `package object
+
+import (
+	"fmt"
+	"sync"
+	"testing"
+)
+
+func TestVerifTraceRace(t *testing.T) {
+	var wg sync.WaitGroup
+	for w := 0; w < 2; w++ {
+		wg.Add(1)
+		go func(w int) {
+			defer wg.Done()
+			for i := 0; i < 3000; i++ {
+				h := GetSymHash(fmt.Sprintf("verif_tr_%d_%d", w, i))
+				_, _ = SymHash2Str(h)
+				_ = GetSymHash(fmt.Sprintf("verif_tr_%d_%d", w, i))
+			}
+		}(w)
+	}
+	wg.Wait()
+}
+`
+	tmp, _ := os.MkdirTemp("", "verif-trrace-")
+	defer os.RemoveAll(tmp)
+	tf := filepath.Join(tmp, "zz_trrace_test.go")
+	os.WriteFile(tf, []byte(src), 0o644)
+	ovb, _ := json.Marshal(map[string]interface{}{"Replace": map[string]string{filepath.Join(repoDir, "object", "zz_verif_trrace_test.go"): tf}})
+	ovp := filepath.Join(tmp, "overlay.json")
+	os.WriteFile(ovp, ovb, 0o644)
+	cmd := exec.Command("go", "test", "-race", "-vet=off", "-count=1", "-run", "TestVerifTraceRace", "-overlay", ovp, "./object")
+	cmd.Dir = repoDir
+	cmd.Env = append(os.Environ(), "GOFLAGS=-mod=mod", "GOPROXY=off", "GOSUMDB=off", "GOTOOLCHAIN=local")
+	var out bytes.Buffer
+	cmd.Stdout = &out
+	cmd.Stderr = &out
+	err := cmd.Run()
+	txt := out.String()
+	return err != nil && (strings.Contains(txt, "DATA RACE") || strings.Contains(txt, "concurrent map")), txt
 }
